@@ -1,153 +1,13 @@
 ------------------------------- MODULE System -------------------------------
 (***************************************************************************)
-(* The whole pipeline in one model: the signing authority (bootstrap,      *)
-(* rotate), the endorse run that measures an image and signs the golden    *)
-(* document with the primary key, publication of the endorsement under the *)
-(* object name of every measurement it lists, an UNTRUSTED bucket between  *)
-(* signer and relying party, and the relying party's SEV-SNP validation    *)
-(* that downloads the object named by the report's measurement.            *)
-(*                                                                         *)
-(* Each module of this directory models one of these stages in detail;     *)
-(* this one keeps only what the stages hand to each other, so that the     *)
-(* end-to-end statement can be written down and checked:                   *)
-(*                                                                         *)
-(*   a report is accepted only if its measurement is one the authority     *)
-(*   the relying party trusts has endorsed (for the named VMSA count when  *)
-(*   one is named), by a key whose certificate is valid at the relying     *)
-(*   party's verification time -- whatever the bucket serves.              *)
-(*                                                                         *)
-(* The bucket is adversarial: objects can be served under another name     *)
-(* (Swap), replaced by a document re-signed with a key of the adversary's  *)
-(* own (Forge), have a payload byte changed (Corrupt) or vanish (Drop).    *)
-(* Cryptography is symbolic (who signed, over which document, certified by *)
-(* which root).  Time is a logical clock; certificates live for Life ticks.*)
-(*                                                                         *)
-(* It is not anchored in one listed property: it composes C01 (authentic), *)
-(* C02 (listed for the named configuration), C03 (what the signer produces *)
-(* verifies, also after rotations), C06 (the document describes the image) *)
-(* and C16 (object names are a function of the measurement).  Conformance: *)
-(* TLC-generated histories are replayed on the real commands, the real     *)
-(* endorse pipeline and gcetcbendorsement.SevValidate ("./check X-SYSTEM").*)
+(* The composition model is in SystemCore.tla (so that the proof system    *)
+(* can read it: SystemProof.tla proves the end-to-end statement for        *)
+(* histories of any length); this module adds the emission of witness      *)
+(* histories for the replay ("./check X-SYSTEM").                          *)
 (***************************************************************************)
-EXTENDS Integers, Sequences, FiniteSets, TLC, Json
-
-CONSTANTS Images, Cfgs, MaxT, Life, MaxCmds, Design
-  \* Design: "sound" | "no_listing" (the validator only checks authenticity: negative control)
-  \*                 | "no_time"    (the certificate's validity is not checked: negative control)
-
-VARIABLES now, prim, nkeys, certs, bucket, endorsed, ncmds, hist, last
-vars == <<now, prim, nkeys, certs, bucket, endorsed, ncmds, hist, last>>
-view == <<now, prim, nkeys, certs, bucket, endorsed, ncmds, last>>
-
-Meas == [img : Images, cfg : Cfgs]                  \* a launch measurement: a function of image and configuration
-MName(m) == m.img \o "/" \o ToString(m.cfg)
-NoCert == [key |-> 0, nb |-> 0, issuer |-> "none"]
-NoObj == [doc |-> "none", signer |-> 0, cert |-> NoCert, sig |-> "none"]
-Keys == 1 .. MaxCmds
-Listed(img) == {[img |-> img, cfg |-> c] : c \in Cfgs}
-
-Init ==
-  /\ now = 1
-  /\ prim = 0 /\ nkeys = 0
-  /\ certs = [k \in Keys |-> NoCert]
-  /\ bucket = [m \in Meas |-> NoObj]
-  /\ endorsed = {}
-  /\ ncmds = 0 /\ hist = <<>> /\ last = [op |-> "none"]
-
-Cmd(e) == ncmds < MaxCmds /\ ncmds' = ncmds + 1 /\ hist' = Append(hist, e)
-
-Tick == now < MaxT /\ now' = now + 1 /\ Cmd([op |-> "tick"]) /\ UNCHANGED <<prim, nkeys, certs, bucket, endorsed, last>>
-
-\* the authority: one bootstrap, then rotations; the previous key is destroyed by the rotation
-Bootstrap ==
-  /\ prim = 0 /\ nkeys = 0
-  /\ nkeys' = 1 /\ prim' = 1
-  /\ certs' = [certs EXCEPT ![1] = [key |-> 1, nb |-> now, issuer |-> "root"]]
-  /\ Cmd([op |-> "bootstrap", t |-> now])
-  /\ UNCHANGED <<now, bucket, endorsed, last>>
-
-Rotate ==
-  /\ prim # 0 /\ nkeys < MaxCmds
-  /\ nkeys' = nkeys + 1 /\ prim' = nkeys + 1
-  /\ certs' = [certs EXCEPT ![nkeys + 1] = [key |-> nkeys + 1, nb |-> now, issuer |-> "root"]]
-  /\ Cmd([op |-> "rotate", t |-> now])
-  /\ UNCHANGED <<now, bucket, endorsed, last>>
-
-\* the endorse run: measures the image for every configuration, signs with the primary key and its
-\* certificate, and the release step publishes the document under each listed measurement's name
-Endorse(img) ==
-  /\ prim # 0
-  /\ LET obj == [doc |-> img, signer |-> prim, cert |-> certs[prim], sig |-> "valid"] IN
-       /\ bucket' = [m \in Meas |-> IF m \in Listed(img) THEN obj ELSE bucket[m]]
-       /\ endorsed' = endorsed \cup {[m |-> m, cert |-> certs[prim]] : m \in Listed(img)}
-  /\ Cmd([op |-> "endorse", img |-> img, t |-> now])
-  /\ UNCHANGED <<now, prim, nkeys, certs, last>>
-
-\* the bucket is not trusted
-Swap(a, b) ==
-  /\ a # b /\ bucket[b] # NoObj
-  /\ bucket' = [bucket EXCEPT ![a] = bucket[b]]
-  /\ Cmd([op |-> "swap", to |-> MName(a), from |-> MName(b)])
-  /\ UNCHANGED <<now, prim, nkeys, certs, endorsed, last>>
-Forge(a) ==   \* a document listing a's measurement, signed by the adversary's key under the adversary's own root
-  /\ bucket' = [bucket EXCEPT ![a] = [doc |-> a.img, signer |-> -1, cert |-> [key |-> -1, nb |-> 1, issuer |-> "evil"], sig |-> "valid"]]
-  /\ Cmd([op |-> "forge", at |-> MName(a)])
-  /\ UNCHANGED <<now, prim, nkeys, certs, endorsed, last>>
-Corrupt(a) == \* the document of another image under the genuine signature of the stored one
-  /\ bucket[a] # NoObj /\ bucket[a].sig = "valid" /\ bucket[a].signer > 0
-  /\ \E other \in Images \ {bucket[a].doc} :
-       bucket' = [bucket EXCEPT ![a] = [@ EXCEPT !.doc = other, !.sig = "over_other"]]
-  /\ Cmd([op |-> "corrupt", at |-> MName(a)])
-  /\ UNCHANGED <<now, prim, nkeys, certs, endorsed, last>>
-Drop(a) ==
-  /\ bucket[a] # NoObj
-  /\ bucket' = [bucket EXCEPT ![a] = NoObj]
-  /\ Cmd([op |-> "drop", at |-> MName(a)])
-  /\ UNCHANGED <<now, prim, nkeys, certs, endorsed, last>>
-
-\* the relying party: a report with measurement m, optionally a named configuration, trusted roots
-InTime(c, t) == c.nb <= t /\ t <= c.nb + Life
-Accepts(m, req, roots) ==
-  LET o == bucket[m] IN
-  /\ o # NoObj
-  /\ o.sig = "valid"                                                   \* signature over the carried document, by the certified key
-  /\ o.cert.issuer = (IF roots = "genuine" THEN "root" ELSE "other")   \* chains to the caller's roots
-  /\ (Design = "no_time" \/ InTime(o.cert, now))                       \* certificate valid at the caller's time
-  /\ (Design = "no_listing" \/
-        /\ m \in Listed(o.doc)                                         \* the document lists the report's measurement
-        /\ (req = 0 \/ m.cfg = req))                                   \* ... for the named configuration
-
-Validate(m, req, roots) ==
-  /\ last' = [op |-> "validate", m |-> MName(m), req |-> req, roots |-> roots, t |-> now,
-              res |-> IF Accepts(m, req, roots) THEN "accept" ELSE "reject"]
-  /\ Cmd(last')
-  /\ UNCHANGED <<now, prim, nkeys, certs, bucket, endorsed>>
-
-Next ==
-  \/ Tick \/ Bootstrap \/ Rotate
-  \/ \E img \in Images : Endorse(img)
-  \/ \E a, b \in Meas : Swap(a, b)
-  \/ \E a \in Meas : Forge(a) \/ Corrupt(a) \/ Drop(a)
-  \/ \E m \in Meas, req \in {0} \cup Cfgs, roots \in {"genuine", "foreign"} : Validate(m, req, roots)
-Spec == Init /\ [][Next]_vars
-
-\* ---- the end-to-end statement ----
-Sys_AcceptedWasEndorsed ==
-  (last.op = "validate" /\ last.res = "accept") =>
-    \E e \in endorsed :
-      /\ MName(e.m) = last.m
-      /\ e.cert.issuer = "root" /\ last.roots = "genuine"
-      /\ InTime(e.cert, last.t)
-      /\ (last.req = 0 \/ e.m.cfg = last.req)
-\* completeness (drift oracle): an untampered object of the current authority validates in time
-Sys_GenuineValidates ==
-  \A m \in Meas :
-    (bucket[m] # NoObj /\ bucket[m].sig = "valid" /\ bucket[m].signer > 0 /\ m \in Listed(bucket[m].doc) /\ InTime(bucket[m].cert, now))
-      => Accepts(m, 0, "genuine") /\ Accepts(m, m.cfg, "genuine")
-\* a rotation never invalidates what was issued before it (C03's "also after rotations")
-Sys_RotationKeepsOldEndorsements ==
-  [][(\E k \in Keys : prim' = k /\ prim # 0 /\ prim' # prim) =>
-       \A m \in Meas : \A req \in {0} \cup Cfgs : Accepts(m, req, "genuine") = (Accepts(m, req, "genuine"))']_vars
+EXTENDS SystemCore, Json
 
 EmitHist == ncmds = MaxCmds => PrintT(<<"VCASE", ToJson([hist |-> hist])>>)
+\* one witness history per distinct (state, validation) under VIEW view
+EmitOnValidate == (last.op = "validate" /\ Len(hist) > 0 /\ hist[Len(hist)] = last) => PrintT(<<"VCASE", ToJson([hist |-> hist])>>)
 =============================================================================
